@@ -102,6 +102,15 @@ StrAccept(tok, style, tag, noSchema, floatlike) ==
   ELSE IF noSchema /\ MaybeNotString(tok, style, floatlike) THEN FALSE
   ELSE tag \in {"", "!"}       \* !!int, !!bool, ... cannot be read into a string
 
+(* a char target: the scalar's text must be exactly one character; a null (tag or unquoted null-like text) is not a   *)
+(* character; under no_schema an unquoted text that looks like a number / boolean / null must be quoted. Other tags    *)
+(* (!!int 1, ! a) do not matter. nchars = number of code points of the token.                                          *)
+CharAccept(tok, style, tag, noSchema, floatlike, nchars) ==
+  IF tag = "!!null" THEN FALSE
+  ELSE IF tag # "!!str" /\ NullLikeTok(tok, style) THEN FALSE
+  ELSE IF noSchema /\ tag # "!!str" /\ MaybeNotString(tok, style, floatlike) THEN FALSE
+  ELSE nchars = 1
+
 (* untyped inference (deserialize_any): constructor of the result *)
 AnyKind(tok, style, tag, strict, legacy, floatKind) ==
   IF tag = "!!null" \/ NullLikeTok(tok, style) THEN "N"
